@@ -55,7 +55,12 @@ class QueryMixin:
                 cq = self.c_query(sc, q)
                 sc.ctes[name.lower()] = (cq, colnames)
             inner = self.c_query(sc, node[2])
-            return lambda env: inner(Env([], env, env.rt))
+
+            def run_with(env):
+                return inner(Env([], env, env.rt))
+            run_with.colnames = inner.colnames
+            run_with.correlated = True
+            return run_with
         if k == 'wrap':
             inner = self.c_query(parent, node[1])
             order, limit = node[2], node[3]
@@ -81,6 +86,8 @@ class QueryMixin:
                             out.append(r)
                     rows = out
                 return ca, rows
+            run.colnames = a.colnames
+            run.correlated = True
             return self._order_limit_wrapper(parent, run, node[4], node[5])
         raise UnsupportedSQL(f'query node {k}')
 
@@ -103,6 +110,8 @@ class QueryMixin:
                         raise UnsupportedSQL('ORDER BY expression on UNION')
                 rows = _multisort(rows, [(lambda r, i=i: r[i], d) for i, d in keys])
             return cols, lim(env, rows)
+        run.colnames = inner.colnames
+        run.correlated = True
         return run
 
     def _c_limit(self, scope, limit):
